@@ -487,8 +487,12 @@ BY_PARAM = {"name": lambda f, o: _fresh("nm"), "type_": lambda f, o: "t", "array
 def candidates(cls):
     """-> [("set" | "call", member, label, builder)] for every public setter and method of the class; builder(f, o)
     returns the value (set) or (args, kwargs) (call)"""
-    _, setters, methods = public_members(cls)
+    props, setters, methods = public_members(cls)
     out = []
+    for name in props:
+        a = inspect.getattr_static(cls, name)
+        if a.fdel is not None and name not in SKIP_MEMBERS:
+            out.append(("del", name, "del obj.%s" % name, None))
     for name in setters:
         if name in SKIP_MEMBERS:
             continue
@@ -652,6 +656,7 @@ class Sweep:
         self.ents = [o for o in self.objs if o["entity"]]
         self.f = None
         self.calls = 0
+        self.records = None       # a list when the caller wants to know what every call did
         self.accepted = {}        # "Class.member" -> number of accepted calls
         self.tried = {}
 
@@ -696,6 +701,8 @@ class Sweep:
                 v = builder(self.f, o)
                 shown = _show(v)
                 setattr(o, member, v)
+            elif kind == "del":
+                delattr(o, member)
             else:
                 args, kw = builder(self.f, o)
                 shown = {"args": _show(args), "kwargs": _show(kw)} if kw else _show(args)
@@ -720,6 +727,18 @@ class Sweep:
         self.log.append(entry)
         self.clock_before = self.clock.t - STEP
         now = self.watch.read()
+        if self.records is not None:
+            # what the call did to the stored stamps (for the comparison with the model's table of touch states)
+            me = [k for k, (e, _) in enumerate(self.watch.objs) if e["addr"] is not None and e["addr"] == obj.get("addr")]
+            self.records.append({
+                "cls": obj["cls"].split("[")[0], "member": member + ("__deleter" if kind == "del" else ""),
+                "kind": kind, "accepted": ok, "on": path_text(obj["path"]), "recipe": label, "shown": shown,
+                "variant": self.variant, "clock": self.clock.t,
+                "changed": [[path_text(self.watch.objs[k][0]["path"]), self.watch.objs[k][0]["cls"], attr, a[i]]
+                            for k, (b, a) in enumerate(zip(self.last, now))
+                            for i, attr in enumerate(("created_at", "updated_at")) if a[i] != b[i]],
+                "self": path_text(self.watch.objs[me[0]][0]["path"]) if me else None,
+                "self_updated": now[me[0]][1] if me else None, "now": _utc_text(self.clock.t)})
         fails = self.compare(self.last, now, entry, obj)
         self.last = now
         return fails
@@ -799,7 +818,8 @@ def _sample(rng, objs, share):
     return pick
 
 
-def run(ctx, rng, share=1.0, pristine=False, variants=None, stop_at_first=False, second_pass=True, on_share=0.0):
+def run(ctx, rng, share=1.0, pristine=False, variants=None, stop_at_first=False, second_pass=True, on_share=0.0,
+        records=None):
     """the sweep: -> (number of calls, failures, coverage).  share < 1: a random share of the objects (at least one of
     every class); pristine: additionally every member of every object on a copy nothing else has touched;
     second_pass: the methods are called before AND after the setters of the object (other state); on_share: share of
@@ -818,8 +838,9 @@ def run(ctx, rng, share=1.0, pristine=False, variants=None, stop_at_first=False,
     with patched_clock(clock), warnings.catch_warnings():
         warnings.simplefilter("ignore")
         sw = Sweep(ctx, clock)
+        sw.records = records
         try:
-            objs = _sample(rng, sw.objs, share)
+            objs = _sample(rng, sw.objs, share) if share > 0 else []
             sessions = [(o, None) for o in objs]
             if on_share > 0:
                 sessions += [(o, ON) for o in _sample(rng, sw.objs, on_share)]
@@ -862,7 +883,7 @@ def run(ctx, rng, share=1.0, pristine=False, variants=None, stop_at_first=False,
                     pass
     members = sorted(sw.tried)
     never = [m for m in members if not sw.accepted.get(m)]
-    cov = {"objects": len(objs), "objects_in_scene": len(sw.objs), "entities_watched": len(sw.ents),
+    cov = {"objects": len(objs), "objects_on": len([1 for _, v in sessions if v == ON]), "objects_in_scene": len(sw.objs), "entities_watched": len(sw.ents),
            "members_called": len(members), "members_never_accepted": never, "calls": sw.calls,
            "accepted_calls": sum(sw.accepted.values())}
     return sw.calls, fails, cov
